@@ -322,6 +322,19 @@ impl EpochSnapshotManager {
     }
 }
 
+#[cfg(feature = "verif-hooks")]
+impl EpochSnapshotManager {
+    /// Verification hook: the private `parse_snapshot_name`, reduced to (epoch, commit id, timestamp)
+    pub fn verif_parse_snapshot_name(
+        snapshot_name: &str,
+        group_id: &GroupId,
+        created_at_unix: u64,
+    ) -> Option<(u64, EventId, u64)> {
+        Self::parse_snapshot_name(snapshot_name, group_id, created_at_unix)
+            .map(|s| (s.epoch, s.applied_commit_id, s.applied_commit_ts))
+    }
+}
+
 #[cfg(test)]
 mod tests {
     use std::collections::BTreeSet;
